@@ -1,0 +1,61 @@
+//! Step hook for deterministic simulation (feature `verif-sim` only).
+//!
+//! With the feature off this module does not exist and `sim_step!` expands to
+//! nothing. With the feature on and no hook registered, each site costs one
+//! relaxed load.
+
+use crate::insn::StartPredicate;
+use std::sync::OnceLock;
+
+/// Hook signature: (site id, auxiliary value such as backtrack stack depth).
+pub type StepHook = fn(u32, usize);
+
+static HOOK: OnceLock<StepHook> = OnceLock::new();
+
+/// Register the process-wide step hook. Returns false if one was already set.
+pub fn set_step_hook(f: StepHook) -> bool {
+    HOOK.set(f).is_ok()
+}
+
+#[inline(always)]
+pub(crate) fn step(site: u32, aux: usize) {
+    if let Some(f) = HOOK.get() {
+        f(site, aux)
+    }
+}
+
+/// Site identifiers passed to the hook.
+pub mod site {
+    pub const BT_INSN: u32 = 1;
+    pub const BT_POP: u32 = 2;
+    pub const BT_START: u32 = 3;
+    pub const LOOK_IN: u32 = 4;
+    pub const LOOK_OUT: u32 = 5;
+    pub const BT_REPORT: u32 = 6;
+    pub const PK_STEP: u32 = 7;
+    pub const PK_START: u32 = 8;
+    pub const ITER_NEXT: u32 = 9;
+    pub const COMPILE_PARSED: u32 = 10;
+    pub const COMPILE_OPTIMIZED: u32 = 11;
+    pub const COMPILE_EMITTED: u32 = 12;
+    pub const PRED_ARBITRARY: u32 = 20;
+    pub const PRED_ANCHORED: u32 = 21;
+    pub const PRED_BYTESET1: u32 = 22;
+    pub const PRED_BYTESET2: u32 = 23;
+    pub const PRED_BYTESET3: u32 = 24;
+    pub const PRED_BYTESEQ: u32 = 25;
+    pub const PRED_BRACKET: u32 = 26;
+    pub const SITE_MAX: u32 = 32;
+}
+
+pub(crate) fn pred_site(p: &StartPredicate) -> u32 {
+    match p {
+        StartPredicate::Arbitrary => site::PRED_ARBITRARY,
+        StartPredicate::StartAnchored => site::PRED_ANCHORED,
+        StartPredicate::ByteSet1(_) => site::PRED_BYTESET1,
+        StartPredicate::ByteSet2(_) => site::PRED_BYTESET2,
+        StartPredicate::ByteSet3(_) => site::PRED_BYTESET3,
+        StartPredicate::ByteSeq(_) => site::PRED_BYTESEQ,
+        StartPredicate::ByteBracket(_) => site::PRED_BRACKET,
+    }
+}
